@@ -16,8 +16,8 @@ from pvmon.common import US, fields, inst, td_us, us_to_fields, wall_us
 from pvmon.oracle import tzdb
 
 PLAN = {
-    "quick": {"configs": ["ext1", "ext0"], "nshards": 12, "nshards_ext0": 4, "timeout": 900},
-    "thorough": {"configs": ["ext1", "ext0"], "nshards": 16, "timeout": 3400, "suite": ["ext1"]},
+    "quick": {"configs": ["ext1", "ext0"], "nshards": 12, "nshards_ext0": 4, "timeout": 900, "tz": ["UTC", "America/New_York", "Europe/Paris", "Australia/Lord_Howe"]},
+    "thorough": {"configs": ["ext1", "ext0"], "nshards": 16, "timeout": 3400, "suite": ["ext1"], "tz": ["UTC", "America/New_York", "Europe/Paris", "Australia/Lord_Howe"]},
 }
 DECIDING = ["dt.accessors", "dt.eq_hash", "dt.pairs", "dt.order_instants", "dt.sub", "types", "date.accessors", "date.pairs",
             "time.accessors", "time.pairs"]
@@ -154,11 +154,22 @@ def run(M, c):
             F = us_to_fields(c["u"] + c["off"] * US)
         else:
             tz, F = None, us_to_fields(c["u"])
-        p = P.DateTime(*F, tzinfo=tz)
-        t1 = dt.datetime(*F, tzinfo=tz)
+        fold = 0
+        ltz = (getattr(M, "spec", None) or {}).get("tz")
+        if k == "naive" and ltz and ltz != "UTC" and c["u"] % 2:
+            # a naive value is resolved by the platform in the process-local zone (TZ of this shard): wall times around
+            # that zone's transitions (inside its gaps and overlaps, both folds) must still answer like the native twin
+            lz = tzdb.Z.get(ltz)
+            t, ob, oa, _ = lz.trans[c["u"] // 2 % len(lz.trans)]
+            w = (t + (ob, oa)[c["u"] // 4 % 2]) * US + (-3600 * US, -1800 * US, -1, 0, 1, 900 * US, 1800 * US)[c["u"] // 8 % 7]
+            if gen.ok_instant(w):
+                F, fold = us_to_fields(w), c["u"] // 64 % 2
+                k = "naive-local-transition"
+        p = P.DateTime(*F, tzinfo=tz, fold=fold)
+        t1 = dt.datetime(*F, tzinfo=tz, fold=fold)
         M.cls(k, c["off"] % 60 == 0)
-        accs = [a for a in ACC if not (k == "naive" and a[0] in ("utctimetuple", "astimezone(utc)", "astimezone(zi)", "timestamp"))]
-        _acc(M, "dt.accessors", accs, p, (("same-tzinfo", t1),), "DateTime-" + k, value=p.isoformat())
+        # (for a naive value timestamp()/astimezone()/utctimetuple() go through the platform's local time in both classes)
+        _acc(M, "dt.accessors", ACC, p, (("same-tzinfo", t1),), "DateTime-" + k, value=p.isoformat())
         M.check("dt.eq_hash", p == t1 and hash(p) == hash(t1), f"C11/DateTime-{k}:eq-hash-twin", "not equal/hash-equal to twin", value=p.isoformat())
         return
     if k == "date":
